@@ -51,8 +51,84 @@ REGRESSIONS = {
 }
 
 
-def build(name):
-    main, hooks = (WITNESSES.get(name) or REGRESSIONS[name])
+# ------------------------------------------------------------------------------------------------- context x expression matrix
+class _N:
+    def __init__(self):
+        self.n = 0
+
+    def __call__(self):
+        self.n += 1
+        return self.n
+
+
+def _exprs(N):
+    """expression kind -> AST (fresh node ids); v is an int variable, o a recorder object"""
+    v = lambda: ("name", N(), "v")
+    o = lambda: ("name", N(), "o")
+    c = lambda z: ("const", N(), "int", z)
+    return {
+        "const": lambda: c(7),
+        "name": v,
+        "minus": lambda: ("un", N(), "UMinus", v()),
+        "not": lambda: ("un", N(), "UNot", v()),
+        "bin": lambda: ("bin", N(), "BAdd", v(), c(1)),
+        "and": lambda: ("bool", N(), "BAnd", v(), c(2)),
+        "or": lambda: ("bool", N(), "BOr", c(0), v()),
+        "cmp": lambda: ("cmp", N(), v(), [("CLessThan", c(5))]),
+        "ifexp": lambda: ("ifexp", N(), v(), c(1), c(2)),
+        "attr": lambda: ("attr", N(), o(), "a"),
+        "sub": lambda: ("sub", N(), o(), c(1)),
+        "call": lambda: ("call", N(), ("name", N(), "k"), [c(4)]),
+        "list": lambda: ("list", N(), [v(), c(1)]),
+        "tuple": lambda: ("tuple", N(), [v(), c(2)]),
+    }
+
+
+def _contexts(N, E):
+    """context name -> statements around one occurrence of the expression E()"""
+    c = lambda z: ("const", N(), "int", z)
+    kc = lambda e: ("expr", ("call", N(), ("name", N(), "k"), [e]))
+    return {
+        "assign": lambda: [("assign", N(), [("tname", "x")], E())],
+        "assign_attr": lambda: [("assign", N(), [("tattr", N(), ("name", N(), "o"), "b")], E())],
+        "assign_subidx": lambda: [("assign", N(), [("tsub", N(), ("name", N(), "o"), E())], c(1))],
+        "aug": lambda: [("assign", N(), [("tname", "x")], c(1)), ("aug", N(), ("tname", "x"), "BAdd", E())],
+        "aug_attr": lambda: [("aug", N(), ("tattr", N(), ("name", N(), "o"), "c"), "BSubtract", E())],
+        "if": lambda: [("if", N(), E(), [kc(c(1))], [kc(c(2))])],
+        "while": lambda: [("while", N(), E(), [kc(c(1)), ("break", N())], [kc(c(2))])],
+        "for": lambda: [("for", N(), "i1", ("list", N(), [E()]), [kc(("name", N(), "i1"))], [])],
+        "assert": lambda: [("try", N(), [("assert", N(), E(), None)], [(("name", N(), "AssertionError"), None, [kc(c(3))])], [], [])],
+        "raise": lambda: [("try", N(), [("raise", N(), ("call", N(), ("name", N(), "E1"), [E()]), None)], [(("name", N(), "E1"), "e1", [kc(c(3))])], [], [])],
+        "callarg": lambda: [kc(E())],
+        "subidx": lambda: [("assign", N(), [("tname", "x")], ("sub", N(), ("name", N(), "o"), E()))],
+        "unop": lambda: [("assign", N(), [("tname", "x")], ("un", N(), "UNot", E()))],
+        "binl": lambda: [("assign", N(), [("tname", "x")], ("cmp", N(), E(), [("CEqual", c(1))]))],
+        "boolr": lambda: [("assign", N(), [("tname", "x")], ("bool", N(), "BOr", c(0), E()))],
+        "ifexp_test": lambda: [("assign", N(), [("tname", "x")], ("ifexp", N(), E(), c(1), c(2)))],
+        "listelt": lambda: [("assign", N(), [("tname", "x")], ("tuple", N(), [E(), c(1)]))],
+    }
+
+
+def matrix():
+    """name -> main statements: every expression kind in every context, after `v = k(3)` and `o = r(1)`"""
+    out = {}
+    N0 = _N()
+    for ek in _exprs(N0):
+        for ck in _contexts(N0, None):
+            N = _N()
+            pre = [("assign", N(), [("tname", "v")], ("call", N(), ("name", N(), "k"), [("const", N(), "int", 3)])),
+                   ("assign", N(), [("tname", "o")], ("call", N(), ("name", N(), "r"), [("const", N(), "int", 1)]))]
+            E = _exprs(N)[ek]
+            body = _contexts(N, E)[ck]()
+            if (ck, ek) in (("callarg", "list"), ("for", "list")):
+                continue  # k(<a list>): the log rendering of list arguments is not canonical across the two sides
+            out["%s/%s" % (ck, ek)] = pre + body
+    return out
+
+
+def build(name, main=None, hooks=None):
+    if main is None:
+        main, hooks = (WITNESSES.get(name) or REGRESSIONS[name])
     prog = {"funs": [], "main": main}
     pr = genprog.Printer()
     src = pr.program(prog)
@@ -61,10 +137,12 @@ def build(name):
     return {"ast": prog, "source": src, "spans": spans, "nsrc": nsrc, "coq": genprog.coq_program(prog, nsrc), "nodes": 64}, hooks
 
 
-def cases(pid):
+def cases(pid, all_hooks=()):
     out, rout = [], []
-    for name in list(WITNESSES) + list(REGRESSIONS):
-        prog, hooks = build(name)
+    items = [(name, None, None) for name in list(WITNESSES) + list(REGRESSIONS)]
+    items += [("matrix:" + name, main, list(all_hooks)) for name, main in matrix().items()]
+    for name, main, hk in items:
+        prog, hooks = build(name, main, hk)
         ans = [{"cls": "A0", "hooks": {x: None for x in hooks}}]
         out.append({"prog": prog, "analyses": ans, "coverage": False, "mode": "corpus:" + name})
         rout.append({"id": "%s/corpus/%s" % (pid, name), "files": {"main.py": prog["source"]}, "analyses": ans})
